@@ -207,7 +207,9 @@ theorem reentrant_nested_finishes :
 /-- a writer, `TypedTree.save` (which itself nests `Tree.save` inside its own `with`), and
 `Tree.copy` called inside the caller's `with tree:`. -/
 def demoProgs : List Prog :=
-  [writer 2, (snapshotProgs[5]?.map (·.2)).getD [], nested ((snapshotProgs[0]?.map (·.2)).getD [])]
+  -- literal programs (the shape TypedTree.save and `with tree: tree.copy()` had when this was written), so that
+  -- the demonstration does not depend on the regenerated table
+  [writer 2, [.acq, .read, .acq, .read, .rel, .acq, .read, .rel, .acq, .read, .rel, .rel], nested [.acq, .read, .rel]]
 
 /-- thread 1 starts; 0 and 2 are tried while 1 holds the lock (blocked), etc. -/
 def demoSched : List Tid :=
